@@ -21,10 +21,17 @@ def prepare(case):
     return c
 
 
+def tracer_order(c):
+    """The insertion order of the tracer dictionary handed to the package is the caller's choice (replay files store
+    dictionaries with sorted keys, so the order is its own field of the case)."""
+    order = [t for t in (c.get('tracer_order') or []) if t in c['tracers']]
+    return order + [t for t in c['tracers'] if t not in order]
+
+
 def call(mod, c, Nthread, tracers=None, inputs=None):
     halo, part, params = HC.build_inputs(c) if inputs is None else inputs
     if tracers is None:
-        tracers = {t: dict(v) for t, v in c['tracers'].items()}
+        tracers = {t: dict(c['tracers'][t]) for t in tracer_order(c)}
     res = mod.gen_gal_cat(halo, part, tracers, params, Nthread=Nthread, enable_ranks=c['enable_ranks'],
                           rsd=c['rsd'], nfw=False, write_to_disk=False, verbose=False)
     return res
